@@ -377,9 +377,78 @@ def f_stride3(rng, seed):
     return "stride3:H%d" % H, n.desc([y])
 
 
+def f_tied(rng, seed):
+    """two convolutions sharing one weight tensor but with different biases (weight-cache hit + stand-alone scales)"""
+    n = Net(seed)
+    H, W, C = rng.choice([4, 8]), rng.choice([4, 8]), rng.choice([16, 32])
+    oc = rng.choice([32, 48, 96])
+    x = n.fm("in", [1, H, W, C], is_input=True)
+    x2 = n.fm("in2", [1, H, W, C], scale=0.04, is_input=True)
+    k = rng.choice([1, 3])
+    y1 = n.conv(x, oc, k, name="ca")
+    wt = n.o[-1]["inputs"][1]
+    y2 = n.conv(x2, oc, k, name="cb")
+    n.o[-1]["inputs"][1] = wt           # same weight tensor, own bias
+    hint = {"accel": rng.choice(["ethos-u65-512", "ethos-u65-512", "ethos-u55-128", "ethos-u65-256"])}
+    return "tied:%d" % oc, n.desc([y1, y2]), hint
+
+
+def f_bigchain(rng, seed):
+    """deep 3x3 chains on large feature maps with an arena cache between one feature map and the unstriped peak:
+    several striping proposals per cascade (Performance)"""
+    n = Net(seed)
+    H = rng.choice([48, 64, 96])
+    W = rng.choice([48, 64])
+    C = rng.choice([8, 16])
+    x = n.fm("in", [1, H, W, C], is_input=True)
+    for i in range(rng.randint(3, 4)):
+        x = n.conv(x, C, 3)
+    fm = H * W * C
+    hint = {"optimise": "Performance", "arena": int(fm * rng.choice([0.6, 0.9, 1.3, 1.8, 2.5]))}
+    if rng.random() < 0.5:
+        hint.update(accel=rng.choice(["ethos-u55-128", "ethos-u55-256"]), config=ARM_INI,
+                    system_config="Ethos_U55_High_End_Embedded", memory_mode="Shared_Sram")
+    else:
+        hint.update(accel=rng.choice(["ethos-u65-256", "ethos-u65-512"]), config=ARM_INI,
+                    system_config="Ethos_U65_High_End", memory_mode="Dedicated_Sram")
+    return "bigchain:%dx%dx%d" % (H, W, C), n.desc([x]), hint
+
+
+def f_nncascade(rng, seed):
+    """nearest-neighbour x2 upscaling in the middle of a cascade, arena sweep (stripe heights handed down by the consumer)"""
+    n = Net(seed)
+    H, W, C = rng.choice([16, 24, 32]), rng.choice([16, 32]), rng.choice([8, 16])
+    x = n.fm("in", [1, H, W, C], is_input=True)
+    x = n.conv(x, C, 3)
+    x = n.resize(x, "RESIZE_NEAREST_NEIGHBOR", 2)
+    x = n.conv(x, C, 3)
+    if rng.random() < 0.5:
+        x = n.conv(x, C, 3)
+    fm = H * W * C
+    hint = {"optimise": "Performance", "arena": int(fm * rng.choice([1.0, 1.5, 2.0, 3.0, 4.0, 5.0, 6.0, 8.0]))}
+    if rng.random() < 0.5:
+        hint.update(accel=rng.choice(["ethos-u55-128", "ethos-u55-64"]), config=ARM_INI,
+                    system_config="Ethos_U55_High_End_Embedded", memory_mode="Shared_Sram")
+    return "nncascade", n.desc([x]), hint
+
+
+def f_bcast(rng, seed):
+    """binary elementwise with a run-time (non-constant) broadcast operand"""
+    n = Net(seed)
+    H, W, C = rng.choice([8, 32, 64]), rng.choice([8, 32, 64]), rng.choice([8, 16, 32])
+    x = n.fm("in", [1, H, W, C], is_input=True)
+    shp = rng.choice([[1, 1, 1, 1], [1, 1, 1, C], [1, 1, W, 1], [1, H, 1, 1], [1, 1, W, C]])
+    y = n.fm("b", shp, scale=0.02, zp=1, is_input=True)
+    kind = rng.choice(["ADD", "MUL", "SUB", "MAXIMUM"])
+    a = n.conv(x, C, 1) if rng.random() < 0.5 else x
+    out = n.eltwise(kind, a, y) if rng.random() < 0.7 else n.eltwise(kind, y, a)
+    return "bcast:%s%s" % (kind, "x".join(map(str, shp[1:]))), n.desc([out])
+
+
 FAMILIES = {"single": f_single, "chain": f_chain, "branch": f_branch, "mixed": f_mixed, "lut": f_lut,
             "wide": f_wide, "u8i16": f_u8i16, "widen": f_widen, "inplace": f_inplace, "lutmany": f_lutmany,
-            "resize": f_resize, "pruned": f_pruned, "diamonds": f_diamonds, "stride3": f_stride3}
+            "resize": f_resize, "pruned": f_pruned, "diamonds": f_diamonds, "stride3": f_stride3, "tied": f_tied,
+            "bigchain": f_bigchain, "nncascade": f_nncascade, "bcast": f_bcast}
 
 
 def all_singles(seed, accel=None):
